@@ -155,3 +155,35 @@ def provoke_failures():
     except Exception:  # noqa
         pass
     return raised
+
+
+class Sentinels:
+    """A few fixed documents encoded BEFORE a shard's workload and again AFTER it (thousands of other documents,
+    tens of thousands of measured strings later): whatever fills up, wraps around or is evicted in between must not
+    change what they encode to."""
+    NAMES = ["graded_s9", "paged_s8", "col_a", "pageby", "title_vec", "names_a"]
+
+    def __init__(self):
+        from .props import c14
+        self.specs = {n: c14.POOL[n] for n in self.NAMES if n in c14.POOL}
+        self.before = {}
+
+    def _encode(self, spec):
+        o = build_and_encode(spec)
+        return ("exc", type(o.exc).__name__) if o.stage else ("ok", o.out)
+
+    def start(self):
+        self.before = {n: self._encode(sp) for n, sp in self.specs.items()}
+
+    def finish(self, ctx):
+        for n, sp in self.specs.items():
+            again = self._encode(sp)
+            ctx.count("sentinel_documents_re_encoded_after_the_workload")
+            if again != self.before.get(n):
+                a, b = self.before[n], again
+                where = ""
+                if a[0] == b[0] == "ok":
+                    i = next((k for k, (x, y) in enumerate(zip(a[1], b[1])) if x != y), min(len(a[1]), len(b[1])))
+                    where = f" at char {i}: ...{a[1][max(0, i - 25):i + 25]!r} vs ...{b[1][max(0, i - 25):i + 25]!r}"
+                ctx.violation(f"sentinel document {n} encodes differently after this shard's workload than before it"
+                              + where, {"sentinel": n, "cases_in_between": ctx.cases}, None)
